@@ -39,6 +39,10 @@ func main() {
 		w, _ := strconv.Atoi(os.Args[4])
 		n, _ := strconv.Atoi(os.Args[5])
 		fmt.Println(stress(seed, p, w, n))
+	case "srcfacts":
+		for _, l := range srcfacts(os.Args[2]) {
+			fmt.Println(l)
+		}
 	case "exec":
 		execOps(os.Args[2], os.Args[3], os.Args[4])
 	case "oracle":
@@ -76,11 +80,14 @@ func execOps(stream, in, outp string) {
 	case "sender":
 		s = newSndSUT(0, 1)
 	case "server":
-		b := &srvBox{}
+		// side file: class counters of the run (which way a both-ready select went, ...), for the evidence only
+		st := wire.Create(outp + ".stats")
+		b := &srvBox{statsOut: st}
 		defer func() {
 			if b.s != nil {
 				b.s.close()
 			}
+			st.Close()
 		}()
 		s = b
 	default:
